@@ -3,7 +3,7 @@
 use std::borrow::Cow;
 
 use winnow::{
-    ascii::{line_ending, space1},
+    ascii::space1,
     combinator::{seq, trace},
     error::{ContextError, FromExternalError, ParserError},
     stream::{AsChar, Stream, StreamIsPartial},
@@ -54,7 +54,7 @@ where
             target: primitive::commodity.map(Cow::Borrowed),
             _: space1,
             rate: expr::amount,
-            _: line_ending,
+            _: character::line_ending_or_eof,
         }},
     )
     .parse_next(input)
